@@ -1120,7 +1120,12 @@ class Discrete(Term):
                 "expected xy to have with 2 columns, "
                 f"but got {self.values.ndim} in shape {self.values.shape}: {self.values}"
             )
-        y = self.height * np.interp(scalar(x), self.values[:, 0], self.values[:, 1])
+        x = scalar(x)
+        y = (
+            self.height
+            * np.where(np.isnan(x), np.nan, 1.0)
+            * np.interp(x, self.values[:, 0], self.values[:, 1])
+        )
         return y
 
     # def tsukamoto(self, y: Scalar) -> Scalar:
